@@ -11,7 +11,7 @@ Not decided: unbiasedness / consistency (the standard importance-sampling argume
 from ..linform import lin, show_lin
 from ..program import AnalysisError
 from ..rules import calls, is_call, is_mcall, mcalls, mentions, mentions_any
-from ..terms import C, Evaluator, G, P, is_t, mk_proj, show, subterms
+from ..terms import C, Evaluator, G, P, is_t, mk_proj, show, subst, subterms
 from .C25 import sig_variadic
 
 SMC = "_src/inference/smc.py"
@@ -130,13 +130,27 @@ def run(chk, prog):
     CT = prog.cls("ChangeTarget", SMC)
     for meth in ("run_smc", "run_csmc", "run_csmc_for_normalizing_constant"):
         fn = CT.methods[meth]
-        rw_fn = prog.nested(fn, "_reweight")
+        # the per-particle reweighting function is whatever is vmapped over (keys, particles, weights): a local function or a method, found by that role
+        import ast as _ast
+        vm_ = [n for n in _ast.walk(fn) if isinstance(n, _ast.Call) and isinstance(n.func, _ast.Call) and _ast.unparse(n.func.func).split(".")[-1] == "vmap" and n.func.args and len(n.args) == 3]
+        rw_fn = None
+        if len(vm_) == 1:
+            x_ = vm_[0].func.args[0]
+            if isinstance(x_, _ast.Name):
+                rw_fn = next((n for n in _ast.walk(fn) if isinstance(n, _ast.FunctionDef) and n.name == x_.id and n is not fn), None)
+            elif isinstance(x_, _ast.Attribute) and isinstance(x_.value, _ast.Name) and x_.value.id == "self":
+                rw_fn = CT.methods.get(x_.attr)
+        if rw_fn is None:
+            raise AnalysisError(f"ChangeTarget.{meth}: no vmap(<reweighting function>)(keys, particles, weights) found")
         ev = Evaluator(prog)
         rr = ev.eval_fn(rw_fn, CT.module, CT, env0={"self": SELF})
         where = f"{CT.module.rel}:{rw_fn.lineno}"
         w = rr.ret if not is_t(rr.ret, "tuple") else rr.ret[1][1]
         form = lin(w)
-        part, wt, key = P("particle"), P("weight"), P("key")
+        pn_ = [a_.arg for a_ in rw_fn.args.args if a_.arg != "self"]
+        if len(pn_) != 3:
+            raise AnalysisError(f"ChangeTarget.{meth}: the reweighting function does not take (key, particle, weight)")
+        key, part, wt = (P(x) for x in pn_)
         lat = ("call", ("attr", ("call", ("attr", ("attr", SELF, "prev"), "get_final_target"), (), ()), "filter_to_unconstrained"), (("call", ("attr", part, "get_choices"), (), ()),), ())
         imp = ("call", ("attr", ("attr", SELF, "target"), "importance"), (key, lat), ())
         want = {frozenset([mk_proj(imp, 1)]): 1, frozenset([("call", ("attr", part, "get_score"), (), ())]): -1, frozenset([wt]): 1}
@@ -191,6 +205,17 @@ def run(chk, prog):
                 chk.require(okc, "POLARITY", "SMCAlgorithm.random_weighted/choices", "returns only the unconstrained choices of that particle", derived=show(chm)[:200], expected="target.filter_to_unconstrained(particle.get_choices())", where=where)
             else:
                 okp = is_mcall(particle, "get_particle") and particle[1][1] == coll and particle[2] == (C(-1),)
+                PC = prog.cls("ParticleCollection", SMC)
+                if not okp and particle == mk_proj(mk_proj(coll, -1), 0) and "__getitem__" in PC.methods:
+                    # collection[-1][0]: the collection's own indexing, when it is (get_particle(idx), weight)
+                    gi_, gp_ = PC.methods["__getitem__"], PC.methods.get("get_particle")
+                    rgi = Evaluator(prog).eval_fn(gi_, PC.module, PC)
+                    rgp = Evaluator(prog).eval_fn(gp_, PC.module, PC) if gp_ is not None else None
+                    t1, t2 = rgi.ret, (rgp.ret if rgp is not None else None)
+                    # __getitem__ maps `v -> v[idx]` over (particles, log_weights); component 0 is that map over the particles = get_particle(idx)
+                    if is_t(t1, "treemap") and len(t1[2]) == 1 and is_t(t1[2][0], "tuple") and len(t1[2][0][1]) == 2 and is_t(t2, "treemap") and len(t2[2]) == 1 and t1[2][0][1][0] == t2[2][0] \
+                            and len(gi_.args.args) == 2 and len(gp_.args.args) == 2:
+                        okp = subst(subst(t1[1], ("leaf", t1[2][0]), ("leaf", t2[2][0])), P(gi_.args.args[1].arg), P(gp_.args.args[1].arg)) == t2[1]
                 chk.require(okp, "RETAINED-SCORE", "SMCAlgorithm.estimate_logpdf", "sample_particle", derived=f"scores {show(particle)[:160]} - a freshly resampled particle, not the one constrained to v",
                             expected="the retained particle collection.get_particle(-1) (the slot run_csmc constrains to v)", where=where)
                 chk.require(coll[2][1] == P("v"), "WEIGHT-INF", "SMCAlgorithm.estimate_logpdf/retained", "v is the retained particle", derived=show(coll)[:160], expected="run_csmc(key, v)", where=where)
